@@ -23,6 +23,8 @@ class Module:
         self.tree = ast.parse(self.source, filename=self.path)
         from . import e1_names
         self.renamed = e1_names.recover(self.tree, rel)     # [(function, {current local name: reference name})]
+        from . import e1_canon
+        e1_canon.canon(self.tree, rel)
         self.funcs = {}
         self.classes = {}
         self._index(self.tree, "", None)
